@@ -123,10 +123,16 @@ func (e *randEnv) reqIDName(ctx sdk.Context, id []byte) string {
 			e.idOf[hex.EncodeToString(rid)] = fmt.Sprintf("%s@%d", u, e.idUpTo)
 		}
 	}
+	if id == nil {
+		return ""
+	}
 	if n, ok := e.idOf[hex.EncodeToString(id)]; ok {
 		return n
 	}
-	return "?" + hex.EncodeToString(id[:4])
+	if len(id) > 4 {
+		id = id[:4]
+	}
+	return "?" + hex.EncodeToString(id)
 }
 
 func short(h string) string {
@@ -156,52 +162,68 @@ func (e *randEnv) project(ctx sdk.Context) any {
 	ctxs, bind, earned, qBad := e.svc.Project(ctx) // first: names the contexts
 	store := ctx.KVStore(c.App.UnsafeFindStoreKey(randomtypes.StoreKey))
 
-	// pending queue, raw: 0x02 | due(8) | request id
+	// What users and other modules read comes from the keeper's own getters; the
+	// raw prefix scans (types/keys.go) only cross-check them (rbBad, strict mode).
+	rbBad := int64(0)
+	rawCount := func(prefix []byte) int {
+		n := 0
+		it := storetypes.KVStorePrefixIterator(store, prefix)
+		defer it.Close()
+		for ; it.Valid(); it.Next() {
+			n++
+		}
+		return n
+	}
+
+	// pending queue: (due height, request id) -> request
 	pending := []any{}
-	it := storetypes.KVStorePrefixIterator(store, randomtypes.RandomRequestQueueKey)
-	for ; it.Valid(); it.Next() {
-		k := it.Key()[1:]
-		var r randomtypes.Request
-		cdc.MustUnmarshal(it.Value(), &r)
+	c.K.Random.IterateRandomRequestQueue(ctx, func(h int64, reqID []byte, r randomtypes.Request) bool {
 		m := e.reqRecord(r)
-		m["due"] = int64(sdk.BigEndianToUint64(k[:8]))
+		m["due"] = h
 		// the key's request id must be the id of the stored request
-		if kid := e.reqIDName(ctx, k[8:]); kid != m["id"] {
+		if kid := e.reqIDName(ctx, reqID); kid != m["id"] {
 			m["id"] = kid + "!" + m["id"].(string)
 		}
 		pending = append(pending, m)
+		return false
+	})
+	if rawCount(randomtypes.RandomRequestQueueKey) != len(pending) {
+		rbBad++
 	}
-	it.Close()
 
-	// results, raw: 0x01 | request id; each is read back through the keeper's getter
+	// results, read back by request id (every id a tracked consumer could have got so far)
 	results := chain.M{}
-	rbBad := int64(0)
-	it = storetypes.KVStorePrefixIterator(store, randomtypes.RandomKey)
+	e.reqIDName(ctx, nil) // extends the id table up to this height
+	for hx, name := range e.idOf {
+		rid, _ := hex.DecodeString(hx)
+		if r, err := c.K.Random.GetRandom(ctx, rid); err == nil {
+			results[name] = chain.M{"h": r.Height, "value": r.Value, "txh": short(r.RequestTxHash)}
+		}
+	}
+	it := storetypes.KVStorePrefixIterator(store, randomtypes.RandomKey)
 	for ; it.Valid(); it.Next() {
-		rid := it.Key()[1:]
 		var r randomtypes.Random
 		cdc.MustUnmarshal(it.Value(), &r)
-		results[e.reqIDName(ctx, rid)] = chain.M{"h": r.Height, "value": r.Value, "txh": short(r.RequestTxHash)}
-		if got, err := c.K.Random.GetRandom(ctx, rid); err != nil || got != r {
+		got, ok := results[e.reqIDName(ctx, it.Key()[1:])].(chain.M)
+		if !ok || got["value"] != r.Value || got["h"] != r.Height {
 			rbBad++
 		}
 	}
 	it.Close()
-
-	// oracle requests waiting for their seed, raw: 0x03 | context id
-	opend := chain.M{}
-	it = storetypes.KVStorePrefixIterator(store, randomtypes.OracleRandomRequestKey)
-	for ; it.Valid(); it.Next() {
-		hx := hex.EncodeToString(it.Key()[1:])
-		name := e.svc.CtxNames[hx]
-		if name == "" {
-			name = "?" + short(hx)
-		}
-		var r randomtypes.Request
-		cdc.MustUnmarshal(it.Value(), &r)
-		opend[name] = e.reqRecord(r)
+	if rawCount(randomtypes.RandomKey) != len(results) {
+		rbBad++
 	}
-	it.Close()
+
+	// oracle requests waiting for their seed, by service context id
+	opend := chain.M{}
+	for name, id := range e.svc.CtxIDs {
+		if r, err := c.K.Random.GetOracleRandRequest(ctx, id); err == nil {
+			opend[name] = e.reqRecord(r)
+		}
+	}
+	if rawCount(randomtypes.OracleRandomRequestKey) != len(opend) {
+		rbBad++
+	}
 
 	h := ctx.BlockHeight()
 	inb := true
